@@ -233,6 +233,17 @@ func checkC03(c *Ctx) error {
 			"unclosed": "<%= " + rep("(", d),
 			"elses":    "<%= if (false) { %>a" + rep("<% } else if (false) { %>b", d) + "<% } %>",
 			"dots":     "<%= a" + rep(".b", d) + " %>",
+			// an if in the else branch of an if, in the then branch of an if with an else, a loop in an else,
+			// block helpers in block helpers, function calls with function-literal arguments
+			"elseladder": rep("<%= if (false) { %>a<% } else { %>", d) + "y" + rep("<% } %>", d),
+			"thenladder": rep("<%= if (true) { %>", d) + "y" + rep("<% } else { %>n<% } %>", d),
+			"elsefor":    rep("<%= if (false) { %>a<% } else { %><%= for (v) in [1] { %>", d) + "y" + rep("<% } %><% } %>", d),
+			"blocks":     rep("<%= blk() { %>", d) + "y" + rep("<% } %>", d),
+			"fnargs":     "<%= " + rep("f(fn(x) { return ", d) + "1" + rep(" })", d) + " %>",
+			"hasharr":    "<%= " + rep("{a: [", d) + "1" + rep("]}", d) + " %>",
+			"minus":      "<%= " + rep("-", d) + "1 %>",
+			"assigns":    "<% " + rep("a = ", d) + "1 %>",
+			"idxassign":  "<% a" + rep("[0]", d) + " = 1 %>",
 			"strings":  "<%= " + rep("\"", d) + " %>",
 		}
 		for name, src := range nest {
